@@ -49,9 +49,12 @@ def element_at_or_default_(
             nonlocal index_
             found = False
             with source.lock:
-                if index_:
+                if index_ > 0:
                     index_ -= 1
-                else:
+                elif index_ == 0:
+                    # record that the element was found before it is emitted: the
+                    # downstream call may re-enter this handler
+                    index_ = -1
                     found = True
 
             if found:
